@@ -30,6 +30,7 @@ type Concrete struct {
 	Phases    [][]byte
 	Setup     func(be *rec.Backend)
 	EOF       bool
+	ThenEOF   bool // close the write side after the phases
 	Handshake bool
 	Hostname  string
 	MailFrom  string
@@ -146,10 +147,44 @@ func Concretize(e *Edge, n int) Concrete {
 				}
 			}
 		}
+	case "DATACUT":
+		line("DATA")
+		parts := []string{"", "h", "hi\r\n", "hi\r\n.", "hi\r\n.\r", "NOOP\r\n"}
+		if part := parts[n%len(parts)]; part != "" {
+			k.Phases = append(k.Phases, []byte(part))
+		}
+		k.ThenEOF = true
+		k.Setup = func(be *rec.Backend) { be.DataPlans = []rec.DataPlan{{Propagate: true}} }
+	case "BDATCUT":
+		l := ""
+		if c.L {
+			l = " LAST"
+		}
+		payload := ""
+		if c.A == "some" {
+			payload = (Chunk6 + Chunk6)[:1+n%(c.N-1)]
+		}
+		k.Phases = append(k.Phases, []byte(fmt.Sprintf("BDAT %d%s\r\n%s", c.N, l, payload)))
+		k.ThenEOF = true
+		if c.P != "" {
+			plan := rec.DataPlan{}
+			switch c.P {
+			case "rej":
+				plan.Err = fmt.Errorf("verdict-%d", n)
+			case "early":
+				plan.ReadMode = rec.ReadNone
+				plan.Err = fmt.Errorf("verdict-%d", n)
+			}
+			k.Setup = func(be *rec.Backend) { be.DataPlans = []rec.DataPlan{plan} }
+		}
 	case "BDAT":
 		payload := ""
 		if c.N == 6 {
 			payload = Chunk6
+		} else if c.N == 12 {
+			payload = Chunk6 + Chunk6
+		} else if c.N == 3 {
+			payload = "a\r\n"
 		} else if c.N > 0 {
 			payload = strings.Repeat("x", c.N)
 		}
@@ -271,7 +306,7 @@ func Concretize(e *Edge, n int) Concrete {
 	default:
 		panic("unknown abstract command " + c.C)
 	}
-	if e.Dst.Closed && !e.Src.Closed && !k.EOF && len(k.Phases) > 0 {
+	if e.Dst.Closed && !e.Src.Closed && !k.EOF && !k.ThenEOF && len(k.Phases) > 0 {
 		// pipeline the suffix behind the closing command, in the same segment
 		last := len(k.Phases) - 1
 		k.Phases[last] = append(append([]byte{}, k.Phases[last]...), AfterSuffix...)
@@ -403,6 +438,15 @@ func (cv *Conv) Exec(e *Edge) (divs []evid.Div, fatal error) {
 		out = append(out, o...)
 		sent = append(sent, string(ph))
 		if err != nil {
+			var stuck *drv.StuckError
+			if errors.As(err, &stuck) {
+				cv.dead = true
+				cv.Hist = append(cv.Hist, StepRec{Cmd: e.Lbl.Cmd.String(), Sent: sent, Expect: "HANG: " + stuck.Where})
+				d := evid.Div{Prop: "C04", Key: "hang:" + e.Lbl.Cmd.String() + ":" + stuck.Where,
+					Msg: fmt.Sprintf("%s in state %s: no reply - %v\n%s", e.Lbl.Cmd, stShort(e.Src), stuck, stuck.Dump), Replay: replayOf(cv, e)}
+				cv.Labels = append(cv.Labels, e.Lbl)
+				return []evid.Div{d}, nil
+			}
 			return nil, err
 		}
 		if i+1 < len(k.Phases) {
@@ -413,6 +457,15 @@ func (cv *Conv) Exec(e *Edge) (divs []evid.Div, fatal error) {
 				break
 			}
 		}
+	}
+	if k.ThenEOF {
+		cv.C.CloseWrite()
+		if !cv.C.WaitIdle() {
+			return nil, fmt.Errorf("server not idle after cut")
+		}
+		o, _ := cv.C.Output()
+		out = append(out, o...)
+		sent = append(sent, "<EOF>")
 	}
 	if k.Handshake {
 		rs, _, _ := wire.ParseAll(out)
@@ -641,6 +694,8 @@ func (cv *Conv) Exec(e *Edge) (divs []evid.Div, fatal error) {
 					prop = "C09"
 				case strings.Contains(j, "errCount") || strings.Contains(j, "lineLimit"):
 					prop = "C19"
+				case strings.Contains(j, "bytes="):
+					prop = "C06" // the size accounting of the chunked transfer
 				}
 				divs = append(divs, evid.Div{Prop: prop, Key: fmt.Sprintf("state:%s:%s", e.Lbl.Cmd.String(), srcClass(e)),
 					Msg: fmt.Sprintf("%s: connection state after the step differs: %s", ctx, j), Replay: rp()})
@@ -669,6 +724,11 @@ func (cv *Conv) Exec(e *Edge) (divs []evid.Div, fatal error) {
 		for i := range divs {
 			divs[i].Prop = prop
 			divs[i].Key = "desync:" + divs[i].Key
+		}
+	}
+	if e.Lbl.Cmd.C == "DATACUT" || e.Lbl.Cmd.C == "BDATCUT" {
+		for i := range divs {
+			divs[i].Prop = "C07"
 		}
 	}
 	if closing || len(divs) > 0 {
